@@ -782,7 +782,11 @@ class VM:
                 constructor = constructor._original_func
 
             # Check prototype chain
-            if not isinstance(obj, JSObject):
+            if self._instance_by_kind(obj, constructor):
+                # regular expressions, typed arrays, buffers and functions are not
+                # linked to a prototype object: their kind decides
+                self.stack.append(True)
+            elif not isinstance(obj, JSObject):
                 self.stack.append(False)
             elif isinstance(constructor, JSFunction) and not isinstance(
                 getattr(constructor, "_prototype", None), JSObject
@@ -1226,6 +1230,29 @@ class VM:
         if b_obj and isinstance(a, (str, int, float)):
             return self._abstract_equals(a, self._to_primitive(b))
 
+        return False
+
+    def _instance_by_kind(self, obj: JSValue, constructor: JSValue) -> bool:
+        """x instanceof C for the built-in kinds that carry no prototype link."""
+        if not isinstance(constructor, JSObject):
+            return False
+        g = self.globals
+        if constructor is g.get("Object"):
+            if isinstance(obj, JSObject):
+                return obj._prototype is None and not getattr(obj, "_null_prototype", False)
+            return isinstance(obj, JSFunction) or (
+                callable(obj) and not isinstance(obj, type)
+            )
+        if constructor is g.get("Function"):
+            return isinstance(obj, JSFunction) or (
+                callable(obj) and not isinstance(obj, (type, JSObject))
+            )
+        if constructor is g.get("RegExp"):
+            return isinstance(obj, JSRegExp)
+        if constructor is g.get("ArrayBuffer"):
+            return isinstance(obj, JSArrayBuffer)
+        if isinstance(obj, JSTypedArray):
+            return constructor is g.get(obj._type_name)
         return False
 
     def _adopt(self, value: JSValue) -> JSValue:
